@@ -160,7 +160,7 @@ def check_cli(cr, ctx):
             if "haplotigs" in n and "all_haplotigs" not in n:
                 htig_scaffolds = len(scs)
     ref = junction_ref.count(cr["input"], out)
-    case = cli_runs.case_of(cr, {"stale_info_yaml": stale})
+    case = cli_runs.case_of(cr, {"stale_info_yaml": stale, "cuts_only": bool(cr.get("cuts_only"))})
     log = (cr["dir"] / "out.log").read_text()
     m = re.search(r"Curation made (\d+) cuts? in (?:a )?contigs?, (\d+) breaks? at (?:a )?gaps? and (\d+) joins?", log)
     if not m:
@@ -169,6 +169,14 @@ def check_cli(cr, ctx):
     got = tuple(int(x) for x in m.groups())
     exp = (ref["cuts"], ref["breaks"], ref["joins"])
     ctx.nontrivial(case["files"])
+    if cr.get("cuts_only"):
+        # Primary mode with several other haplotypes: the all_haplotigs file may hold same-named scaffolds of two
+        # haplotypes one after the other, which read back as one (C07's known finding D11) - adjacencies cannot be
+        # recounted from that file; the number of fragments can
+        ctx.count("cli:three-or-more-haplotypes:cuts-recounted")
+        if got[0] != exp[0]:
+            ctx.violation("log-line-cuts-differ-from-written-files", f"log says {got[0]} cuts, the files hold {exp[0]} more fragments than the input has contigs", case)
+        return
     if got != exp:
         ctx.violation("log-line-counts-differ-from-written-files", f"log says cuts/breaks/joins {got}, files give {exp}", case)
         return
@@ -208,6 +216,9 @@ def run_cli(shard, ctx):
         if i % 10 == 9:
             cr = cli_runs.text_case(rng, scratch / f"c{i}", fmt=rng.choice(["tpf", "agp"]), strands=(1, -1), contig_level_null=True)
             cr["stale_info_yaml"] = True
+        elif i % 10 == 6:
+            cr = cli_runs.text_case(rng, scratch / f"c{i}", fmt="agp", nhap=rng.choice([3, 4]))
+            cr["cuts_only"] = True
         else:
             cr = cli_runs.text_case(rng, scratch / f"c{i}", fmt=rng.choice(["tpf", "agp"]), tagged=True, two_hap=(i % 4 == 3), strands=(1, -1))
             if i % 2 == 0 and cli_runs.add_haplotig_slivers(rng, cr):
@@ -232,6 +243,7 @@ def replay(case, ctx):
 
         cr = cli_runs.restore_case(case, Path(os.environ.get("VERIF_SHARD_SCRATCH", ".")) / "replay")
         cr["stale_info_yaml"] = case.get("stale_info_yaml")
+        cr["cuts_only"] = case.get("cuts_only")
         check_cli(cr, ctx)
     else:
         oracle(case, workloads.run_case(case), ctx)
@@ -263,5 +275,6 @@ def gates(c, tier):
         "cli:cases-with-haplotig-slivers": 20,
         "cli:report-of-an-earlier-run-in-place": 30,
         "cli:contig-level-null-runs": 10,
+        "cli:three-or-more-haplotypes:cuts-recounted": 10,
     }
     return [f"{k}>={v} (got {c.get(k, 0)})" for k, v in need.items() if c.get(k, 0) < v]
